@@ -24,6 +24,7 @@ CONSTANTS
   FlushSupported = %(fls)s
   WithFlush = %(wfl)s
   WithAbort = %(wab)s
+  WithHijack = %(whj)s
   AbortPutsBlind = %(abb)s
   PutBeforeFlush = %(bad)s
 VIEW View
@@ -35,10 +36,10 @@ ACTIONS = ["Begin", "WriteHeader", "Write", "FinishFlush", "FinishPut"]
 MCCHUNKS2 = "MCChunksTwo"
 
 
-def cfg(spec, handlers, ops, reqs, full=False, bad=False, inv=False, codes=None, chunks=None, flush=None, abort=False, blind=False):
+def cfg(spec, handlers, ops, reqs, full=False, bad=False, inv=False, codes=None, chunks=None, flush=None, abort=False, blind=False, hijack=False):
     """flush: None = scripts without Flush; True / False = with Flush, got through / no-op"""
     return CFG % dict(spec=spec, handlers=handlers, ops=ops, reqs=reqs,
-                      wab="TRUE" if abort else "FALSE", abb="TRUE" if blind else "FALSE",
+                      wab="TRUE" if abort else "FALSE", whj="TRUE" if hijack else "FALSE", abb="TRUE" if blind else "FALSE",
                       fls="TRUE" if flush else "FALSE", wfl="FALSE" if flush is None else "TRUE",
                       codes=codes or ("MCCodesFull" if full else "MCCodesSmall"),
                       chunks=chunks or ("MCChunksFull" if full else "MCChunksSmall"),
@@ -175,6 +176,8 @@ def run(ctx):
         "Accept-Encoding values that make gzip acceptable only through * or an unusual spelling leave the mode free (not compressing is always permitted there); values that refuse gzip (explicit q=0, also next to *; *;q=0 without an explicit entry) must not be compressed",
         "histories on one handler / proxy instance: a handler may give up with panic(http.ErrAbortHandler) after any op (nothing is asserted of the aborted response, everything of all others - thousands of responses share the instance and its writer pool), and may add a Vary value of its own, which must arrive and must not leak into other responses",
         "a panic of the handler under test other than the scripted abort, and a connection cut without response that it explains, are violations",
+        "the inner handler may write all chunks from one buffer it overwrites after each Write (a chunk is the value at the time of the call), and may try to hijack a writer that refuses, then answer normally (the failed attempt must leave nothing behind)",
+        "through HTTPProxy the three transports main.newHTTPProxy / route.addTarget create are used (default; tlsskipverify=true; proto=https host=<name>) against http and https upstreams; a response to a client that sent no Accept-Encoding at all may arrive decoded when the upstream answered gzip (the transport negotiated it)",
         "the status of scripts with several WriteHeader calls is cross-checked against (and taken from) a reference run of the same script on net/http without the gzip wrapper",
         "a response the inner handler labelled with a Content-Encoding must pass unchanged (also when that label is gzip)",
         "a data race report involving proxy/gzip/gzip_handler.go counts as a violation (shared writer pool)",
@@ -182,7 +185,7 @@ def run(ctx):
     # 1. the pool / content / header invariants on the model (the broken designs must be caught) and
     # 2. the behaviours - independent TLC runs, several at a time
     T = ctx.tmp
-    one, two, info, info2, aef, flf, hst, hst2 = (os.path.join(T, "c17." + n) for n in ("one", "two", "info", "info2", "ae", "flush", "hist", "hist2"))
+    one, two, info, info2, aef, flf, hst, hst2, snf, viaf = (os.path.join(T, "c17." + n) for n in ("one", "two", "info", "info2", "ae", "flush", "hist", "hist2", "sniff", "via"))
     jobs = []
     if ctx.thorough:
         jobs += [mc_job(ctx, "pool-4ops", "MCTwo", 4, "MCReqsMid", 1500), mc_job(ctx, "pool-3handlers", "MCThree", 2, "MCReqsSmall", 900),
@@ -202,31 +205,45 @@ def run(ctx):
     jobs += [gen_job(ctx, "one-handler", one, "MCOne", ctx.pick(3, 4), "MCReqsFull", True),
              gen_job(ctx, "two-handlers", two, "MCTwo", 2, ctx.pick("MCReqsPair", "MCReqsMid"), False),
              gen_job(ctx, "informational", info, "MCOne", ctx.pick(3, 4), "MCReqsInfo", False, codes="MCCodesInfo"),
-             gen_job(ctx, "two-handlers-1xx-flush", info2, "MCTwo", 2, "MCReqsInfoPair", False, codes="MCCodesInfoSmall", flush=False),
-             gen_job(ctx, "accept-encoding", aef, "MCOne", ctx.pick(2, 3), "MCReqsAE", False, codes="MCCodesFlush", chunks=MCCHUNKS2),
+             gen_job(ctx, "two-handlers-1xx-flush", info2, "MCTwo", 2, ctx.pick("MCReqsInfoOne", "MCReqsInfoPair"), False, codes="MCCodesInfoSmall", flush=False),
              gen_job(ctx, "flush", flf, "MCOne", ctx.pick(3, 4), "MCReqsFlush", False, codes="MCCodesFlush", flush=False),
-             # histories on one instance: responses with a Vary value of their own / aborted mid-way, then ordinary ones
-             gen_job(ctx, "abort+own-vary", hst, "MCOne", ctx.pick(3, 4), "MCReqsHist", False, chunks=MCCHUNKS2, abort=True),
              gen_job(ctx, "abort+own-vary-two-handlers", hst2, "MCTwo", 2, "MCReqsHistPair", False, abort=True)]
+    if ctx.thorough:
+        jobs += [gen_job(ctx, "accept-encoding", aef, "MCOne", 3, "MCReqsAE", False, codes="MCCodesFlush", chunks=MCCHUNKS2),
+                 # histories on one instance: responses with a Vary value of their own / aborted mid-way, then ordinary ones
+                 gen_job(ctx, "abort+own-vary", hst, "MCOne", 4, "MCReqsHist", False, chunks=MCCHUNKS2, abort=True),
+                 # typeless bodies written from a reused buffer, failed hijack attempts before / between the ops
+                 gen_job(ctx, "sniff+reused-buffer+failed-hijack", snf, "MCOne", 4, "MCReqsSniff", True, codes="MCCodesSmall", hijack=True),
+                 # the proxy's three transports (route options) x encoded / not encoded upstream responses
+                 gen_job(ctx, "transports", viaf, "MCOne", 3, "MCReqsVia", False, chunks=MCCHUNKS2)]
+    else:
+        # the same four universes (Accept-Encoding classes; own Vary + aborts; sniffed type + reused buffer + failed
+        # hijack; the proxy's transports) in one run
+        jobs += [gen_job(ctx, "accept-encoding+histories+sniff+transports", aef, "MCOne", 3, "MCReqsMisc", False, codes="MCCodesFlush",
+                         chunks=MCCHUNKS2, abort=True, hijack=True)]
+        for f in (hst, snf, viaf):
+            open(f, "w").close()
     if not settle(ctx, jobs, par_tlc(ctx, jobs, width=ctx.pick(4, 3))):
         return
     behs = os.path.join(ctx.tmp, "c17.behs")
-    n1 = share(ctx, one, behs, ctx.pick(0.03, 0.12), boost=4.0)
-    n2 = share(ctx, two, behs, ctx.pick(0.02, 0.06), boost=2.0)
-    n3 = share(ctx, info, behs, ctx.pick(0.08, 0.15), boost=2.0, need='"code":10')
-    n2 += share(ctx, info2, behs, ctx.pick(0.015, 0.2), boost=2.0, pred=lambda l: '"code":10' in l or '"ev":"fl"' in l)
-    n4 = share(ctx, aef, behs, ctx.pick(0.5, 1.0))
+    n1 = share(ctx, one, behs, ctx.pick(0.025, 0.12), boost=4.0)
+    n2 = share(ctx, two, behs, ctx.pick(0.012, 0.06), boost=2.0)
+    n3 = share(ctx, info, behs, ctx.pick(0.05, 0.15), boost=2.0, need='"code":10')
+    n2 += share(ctx, info2, behs, ctx.pick(0.03, 0.2), boost=2.0, pred=lambda l: '"code":10' in l or '"ev":"fl"' in l)
+    n4 = share(ctx, aef, behs, ctx.pick(0.12, 1.0), boost=1.5)
     n4 += share(ctx, flf, behs, ctx.pick(0.06, 0.12), boost=3.0, need='"ev":"fl"')
-    n5 = share(ctx, hst, behs, ctx.pick(0.25, 0.25))
+    n5 = share(ctx, hst, behs, ctx.pick(0.15, 0.25))
     n5 += share(ctx, hst2, behs, ctx.pick(0.08, 0.3))
+    n6 = share(ctx, snf, behs, ctx.pick(0.15, 0.5))
 
     # (the replay through the real HTTPProxy - step 4 - runs as a second `go test` process at the same time)
     px = os.path.join(ctx.tmp, "c17.proxy")
     share(ctx, one, px, ctx.pick(0.02, 0.03), boost=4.0)
     share(ctx, info, px, ctx.pick(0.08, 0.15), boost=2.0, need='"code":10')
-    share(ctx, aef, px, ctx.pick(0.3, 0.5))
+    share(ctx, aef, px, ctx.pick(0.12, 0.5))
     share(ctx, flf, px, ctx.pick(0.03, 0.05), boost=3.0, need='"ev":"fl"')
     share(ctx, hst, px, ctx.pick(0.15, 0.15))
+    share(ctx, viaf, px, ctx.pick(1.0, 1.0))
     from concurrent.futures import ThreadPoolExecutor
     pxex = ThreadPoolExecutor(max_workers=1)
     pxfut = pxex.submit(run_proxy, ctx, px, "C17 through HTTPProxy", timeout=ctx.pick(300, 600))
@@ -237,8 +254,8 @@ def run(ctx):
     if r is None:
         return
     s = r.summary
-    ctx.log("replayed %d behaviours (%d single-handler + %d two-handler + %d with informational headers + %d Accept-Encoding / Flush + %d abort / own-Vary histories selected, %d reference runs without the wrapper): %d handlers, %d delivered gzip / %d plain, %.1f MB written by inner handlers, %d chunks >= 64 KiB, %d failed, %.0fs"
-            % (s["ran"], n1, n2, n3, n4, n5, s["reference_runs"], s["handlers"], s["gzip_mode"], s["plain_mode"], s["inner_bytes"] / 1e6, s["chunks_64k_plus"], s["fails"], r.wall))
+    ctx.log("replayed %d behaviours (%d single-handler + %d two-handler + %d with informational headers + %d Accept-Encoding / Flush + %d abort / own-Vary histories + %d sniff / reused buffer / failed hijack selected, %d reference runs without the wrapper): %d handlers, %d delivered gzip / %d plain, %.1f MB written by inner handlers, %d chunks >= 64 KiB, %d failed, %.0fs"
+            % (s["ran"], n1, n2, n3, n4, n5, n6, s["reference_runs"], s["handlers"], s["gzip_mode"], s["plain_mode"], s["inner_bytes"] / 1e6, s["chunks_64k_plus"], s["fails"], r.wall))
     if s["ran"] == 0 or s["gzip_mode"] == 0 or s["plain_mode"] == 0 or s["two_handler_behaviours"] == 0:
         ctx.inconclusive("replay is vacuous: %s" % json.dumps(s)[:400])
     ctx.cover("gzip", traces_validated_against_impl=s["ran"], evaluations=s["handlers"], distinct_nontrivial=s["distinct_nontrivial"],
